@@ -735,7 +735,8 @@ class CollectEndToEnd(Case):
         "six": ([1.0, 20.0, 3.0, 40.0, 5.0, 60.0], [0, 10, 20, 30, 40, 50]),
         "gap": ([7.0, None, 9.0, 70.0, 2.0], [0, 10, 20, 30, 40]),
     }
-    WINDOWS = {"two": [(0, 20), (30, 50)], "one-late": [(20, 45)], "touching": [(0, 30), (30, 60)]}
+    # None: that bound is not given (open-ended window)
+    WINDOWS = {"two": [(0, 20), (30, 50)], "one-late": [(20, 45)], "touching": [(0, 30), (30, 60)], "open-ended": [(None, 20), (30, None)], "open-late-first": [(30, None), (None, 20)], "ending-only": [(None, 30)]}
 
     def one(self, values):
         import logging
@@ -754,7 +755,7 @@ class CollectEndToEnd(Case):
         wins = self.WINDOWS[values["windows"]]
         span = {"fail_span": [0, 50], "suspect_span": [2, 30]}
         ts = lambda s_: str(np.datetime64(s_, "s"))  # noqa: E731
-        ctxs = [{"window": {"starting": ts(a), "ending": ts(b)}, "streams": {"v": {"qartod": {"gross_range_test": span}}}} for a, b in wins]
+        ctxs = [{"window": dict(([("starting", ts(a))] if a is not None else []) + ([("ending", ts(b))] if b is not None else [])), "streams": {"v": {"qartod": {"gross_range_test": span}}}} for a, b in wins]
         config = cfgm.Config({"contexts": ctxs})
         front, index = values["front"], values["index"]
         logging.disable(logging.CRITICAL)
@@ -780,7 +781,7 @@ class CollectEndToEnd(Case):
         # expectation: the direct call on the rows of each window
         exp = {}
         for a, b in wins:
-            rows = [i for i in range(n) if a <= secs[i] < b]
+            rows = [i for i in range(n) if (a is None or a <= secs[i]) and (b is None or secs[i] < b)]
             if rows:
                 with warnings.catch_warnings():
                     warnings.simplefilter("ignore")
